@@ -202,6 +202,23 @@ class _Subst(ast.NodeTransformer):
         return node
 
 
+def _replace_node(root, old, new):
+    """Copy of root with the node `old` (by identity) replaced by `new`."""
+    # deepcopy keeps no identity: mark the node first
+    old._pv_mark = True
+    try:
+        cp = copy.deepcopy(root)
+    finally:
+        del old._pv_mark
+
+    class R2(ast.NodeTransformer):
+        def visit(self, node):
+            if getattr(node, '_pv_mark', False):
+                return new
+            return self.generic_visit(node)
+    return R2().visit(cp)
+
+
 def subst(expr, env, attrs=None):
     if expr is None:
         return None
@@ -551,6 +568,51 @@ class Enumerator:
         ast.fix_missing_locations(call)
         return isinstance(prim.ops[0], ast.NotIn), call
 
+    def _coll_truth(self, prim, st):
+        """Truth of a collection symbol: non-empty once something was
+        appended on this path, else that of its untouched literal."""
+        if not (isinstance(prim, ast.Name) and prim.id.startswith('SYM_m')):
+            return None
+        grown = False
+        for e in st.events:
+            if e.kind not in ('call', 'maycall', 'store', 'aug', 'del'):
+                continue
+            if e.kind == 'call':
+                fn = e.node.func
+                if isinstance(fn, ast.Attribute) and isinstance(
+                        fn.value, ast.Name) and fn.value.id == prim.id:
+                    if fn.attr in ('append', 'add', 'insert'):
+                        grown = True
+                    elif fn.attr not in ('copy', 'index', 'count', 'get',
+                                         'keys', 'values', 'items'):
+                        return None
+                    continue
+            if e.kind != 'call' and any(
+                    isinstance(n, ast.Name) and n.id == prim.id
+                    for n in ast.walk(e.node)):
+                return None
+        if grown:
+            return True
+        d = self.defs.get(prim.id)
+        if isinstance(d, (ast.List, ast.Tuple, ast.Set, ast.Dict)):
+            # passed to another call it may have been filled there
+            for e in st.events:
+                if e.kind == 'call' and any(
+                        isinstance(a, ast.Name) and a.id == prim.id
+                        for a in list(e.node.args) + [k.value for k in
+                                                      e.node.keywords]):
+                    return None
+            return const_truth(d)
+        return None
+
+    def _iter_truth(self, it, st):
+        """Emptiness of an iterable known from its spelling: a literal, or
+        a symbol naming a literal display and what was done to it."""
+        ct = const_truth(it)
+        if ct is not None:
+            return ct
+        return self._coll_truth(it, st)
+
     def _branch_quant(self, q, prim, st, line):
         """any()/all() over a generator as the loop it abbreviates (0 and 1
         iterations, like every other loop)."""
@@ -567,7 +629,7 @@ class Enumerator:
         itk = key_of(subst(it, {}, s0.attrs) if (self.track_attrs
                                                   and s0.attrs) else it)
         known = s0.facts.get(itk)
-        ct = const_truth(it)
+        ct = self._iter_truth(it, s0)
         if ct is not None:
             known = ct
         if 0 in self.loop_iters and known is not True:
@@ -616,6 +678,8 @@ class Enumerator:
         if isinstance(full, (ast.BoolOp, ast.UnaryOp)):
             full = prim
         f = self._fold(full)
+        if f is None:
+            f = self._coll_truth(prim, st)
         if f is not None:
             yield st, (f != flip)
             return
@@ -747,6 +811,18 @@ class Enumerator:
                 v.generators) == 1 and not v.generators[0].is_async:
             yield from self._eval_comp(v, st, handlers, value)
             return
+        if self.inline is not None and len(self._stack) <= self.max_depth \
+                and has_call(v):
+            hit = self._nested_inlinable(v)
+            if hit is not None:
+                node, callee = hit
+                for s, rv, rs in self._inline(node, callee, st, handlers):
+                    if rs is not None:
+                        yield s, None, rs
+                        continue
+                    v2 = _replace_node(v, node, rv)
+                    yield from self._eval_substituted(v2, s, handlers, value)
+                return
         if not has_call(v):
             if isinstance(v, (ast.List, ast.Dict, ast.Set)):
                 # a mutable literal may be mutated later through its name:
@@ -775,6 +851,27 @@ class Enumerator:
         sym = self.fresh(v)
         s.events[-1].sym = sym.id if calls else None
         yield s, sym, None
+
+    def _nested_inlinable(self, v):
+        """The first (innermost, leftmost) call nested inside v - not v
+        itself - that the inline policy wants expanded."""
+        found = []
+
+        def visit(n, top):
+            if isinstance(n, (ast.Lambda, ast.ListComp, ast.SetComp,
+                              ast.DictComp, ast.GeneratorExp, ast.IfExp,
+                              ast.BoolOp)):
+                return              # not evaluated unconditionally / here
+            for c in ast.iter_child_nodes(n):
+                visit(c, False)
+                if found:
+                    return
+            if not top and isinstance(n, ast.Call):
+                callee = self._inline_target(n)
+                if callee is not None:
+                    found.append((n, callee))
+        visit(v, True)
+        return found[0] if found else None
 
     def _eval_comp(self, v, st, handlers, value):
         """A one-generator comprehension as the accumulating loop it
@@ -1189,7 +1286,7 @@ class Enumerator:
         itk = key_of(subst(it, {}, s0.attrs) if (self.track_attrs
                                                   and s0.attrs) else it)
         known = s0.facts.get(itk)
-        ct = const_truth(it)
+        ct = self._iter_truth(it, s0)
         if ct is not None:
             known = ct
         if 0 in self.loop_iters and known is not True:
